@@ -6,7 +6,7 @@ name=$1; patch=$2
 wt=/tmp/hwt_$name; vc=/tmp/hv_$name
 git -C /repo worktree remove --force $wt 2>/dev/null; rm -rf $wt $vc
 git -C /repo worktree add -q --detach $wt HEAD || exit 2
-git -C $wt apply $patch || { echo "$name: patch does not apply"; git -C /repo worktree remove --force $wt; exit 2; }
+git -C $wt apply ${APPLY_ARGS:-} $patch || { echo "$name: patch does not apply"; git -C /repo worktree remove --force $wt; exit 2; }
 rsync -a --exclude .git /verif/ $vc/
 cd $vc
 for p in $(seq -f 'C%02g' 1 20); do
